@@ -11,4 +11,32 @@ def readDirOrder : List String := ["Directories", "Files", "Symlinks"]
 def readDirReturnsEOF : Bool := false
 def dirIntFields : Nat := 0
 def readDirMutatesReceiver : Bool := false
+-- skelFindNode: p1, v0, v1 := strings.Cut(p1, string(filepath.Separator)) ; if p1 == "." { if v0 != "" { return r0.findNode(p0, v0) } v2, v3 := digest.NewFromMessage(p0) if v3 != nil { return nil, nil, nil, v3 } v4 := &pb.DirectoryNode{Name: ".", Digest: v2.ToProto()} return nil, v4, nil, nil } ; if p1 == ".." { return nil, nil, nil, os.ErrNotExist } ; for v5, v6 := range p0.Directories { if v6.Name == p1 { v7 := r0.directories[digest.NewFromProtoUnvalidated(v6.Digest)] if v0 == "" { return nil, v6, nil, nil } return r0.findNode(v7, v0) } } ; if v1 { return nil, nil, nil, os.ErrNotExist } ; for v8, v9 := range p0.Files { if v9.Name == p1 { return v9, nil, nil, nil } } ; for v10, v11 := range p0.Symlinks { if v11.Name == p1 { return nil, nil, v11, nil } } ; return nil, nil, nil, os.ErrNotExist
+def skelFindNode : String := "e26aca13c73b607bb1d2d0c8"
+-- skelOpenRec: v0, v1, v2, v3 := r0.findNode(r0.root, p0) ; if v3 != nil { return nil, v3 } ; if v2 != nil { if filepath.IsAbs(v2.Target) { return nil, fmt.Errorf("…", p0) } return r0.open(filepath.Join(filepath.Dir(p0), v2.Target)) } ; if v0 != nil { return r0.openFile(v0) } ; if v1 != nil { return r0.openDir(v1) } ; return nil, os.ErrNotExist
+def skelOpenRec : String := "1b04ba035af2d92941a68665"
+-- skelReadDir: v0 := p0 ; if p0 <= 0 { v0 = len(r0.pb.Files) + len(r0.pb.Symlinks) + len(r0.pb.Files) } ; v1 := make([]iofs.DirEntry, 0, v0) ; for v2, v3 := range r0.pb.Directories { if p0 > 0 && len(v1) == p0 { return v1, nil } v4 := r0.children[digest.NewFromProtoUnvalidated(v3.Digest)] v1 = append(v1, newDirInfo(v3.Name, v4)) } ; for v5, v6 := range r0.pb.Files { if p0 > 0 && len(v1) == p0 { return v1, nil } v1 = append(v1, newFileInfo(v6)) } ; for v7, v8 := range r0.pb.Symlinks { if p0 > 0 && len(v1) == p0 { return v1, nil } v1 = append(v1, newSymlinkInfo(v8)) } ; return v1, nil
+def skelReadDir : String := "b9113771cd7e2a5193fe7dff"
+-- skelOpen: return r0.open(filepath.Join(r0.workingDir, p0))
+def skelOpen : String := "1043b3fe45076432aa39dbd3"
+-- skelFindNodeAPI: return r0.findNode(r0.root, filepath.Join(r0.workingDir, p0))
+def skelFindNodeAPI : String := "42632bc903bbe154e91c7cc1"
+-- skelStat: v0, v1, v2, v3 := r0.FindNode(p0) ; if v3 != nil { return nil, v3 } ; if v0 != nil { return newFileInfo(v0), nil } ; if v1 != nil { v4 := r0.directories[digest.NewFromProtoUnvalidated(v1.Digest)] return newDirInfo(v1.Name, v4), nil } ; if v2 != nil { return newSymlinkInfo(v2), nil } ; return nil, os.ErrNotExist
+def skelStat : String := "923da5766ad015867b74b039"
+-- skelNew: v0 := make(map[digest.Digest]*pb.Directory, len(p1.Children)) ; for v1, v2 := range append(p1.Children, p1.Root) { v3, v4 := digest.NewFromMessage(v2) if v4 != nil { log.Fatalf("…", v4) } v0[v3] = v2 } ; return &CASFileSystem{ p0: p0, root: p1.Root, v0: v0, p2: filepath.Clean(p2), }
+def skelNew : String := "a6a62b23139ed4d5ea8bf079"
+-- skelChangeDir: return &CASFileSystem{ c: r0.c, root: r0.root, directories: r0.directories, workingDir: p0, }
+def skelChangeDir : String := "c3c3137e116be5f13c6f737f"
+-- skelOpenDir: v0 := r0.directories[digest.NewFromProtoUnvalidated(p0.Digest)] ; return &dir{ info: newDirInfo(p0.Name, v0), pb: v0, children: r0.directories, }, nil
+def skelOpenDir : String := "09731dbfddb700a7736f4c65"
+-- skelOpenFile: v0, v1, v2 := r0.c.ReadBlob(context.Background(), digest.NewFromProtoUnvalidated(p0.Digest)) ; if v2 != nil { return nil, v2 } ; return &file{ ReadSeeker: bytes.NewReader(v0), info: newFileInfo(p0), }, nil
+def skelOpenFile : String := "405022957d85bfcdbc1c328b"
+-- skelInfo_newFileInfo: v0 := info{ size: p0.Digest.SizeBytes, name: p0.Name, } ; return v0.withProperties(p0.NodeProperties)
+def skelInfo_newFileInfo : String := "b28959cb2e00d9dc37b1efcb"
+-- skelInfo_newDirInfo: v0 := &info{ p0: p0, mode: os.ModeDir, } ; return v0.withProperties(p1.NodeProperties)
+def skelInfo_newDirInfo : String := "2f2b80d6701c108853270e82"
+-- skelInfo_newSymlinkInfo: v0 := &info{ name: p0.Name, mode: os.ModeSymlink, } ; return v0.withProperties(p0.NodeProperties)
+def skelInfo_newSymlinkInfo : String := "4c8df7e373f27b0f059797f0"
+-- skelInfo_info_withProperties: if p0 == nil { return r0 } ; if p0.UnixMode != nil { r0.mode |= os.FileMode(p0.UnixMode.Value) } ; if p0.Mtime != nil { r0.modTime = p0.Mtime.AsTime() } ; return r0
+def skelInfo_info_withProperties : String := "b2fca916b075c4928c5bc5d1"
 end PlzVerif.Generated.C29
